@@ -137,6 +137,23 @@ STDLIB_AXIOMS = {
 }
 
 
+def strip_comments(text):
+  """Remove (possibly nested, multi-line) Coq comments, keeping line structure."""
+  out, depth, i, n = [], 0, 0, len(text)
+  while i < n:
+    if text.startswith("(*", i):
+      depth += 1
+      i += 2
+    elif depth and text.startswith("*)", i):
+      depth -= 1
+      i += 2
+    else:
+      if depth == 0 or text[i] == "\n":
+        out.append(text[i])
+      i += 1
+  return "".join(out)
+
+
 def forbidden_scan():
   """grep the development (not the generated Cases) for escape hatches.  Returns list of 'file:line: text'."""
   hits = []
@@ -145,11 +162,25 @@ def forbidden_scan():
       for n in names:
         if n.endswith(".v"):
           p = os.path.join(root, n)
-          for i, line in enumerate(open(p), 1):
-            code = re.sub(r"\(\*.*?\*\)", "", line)
-            if FORBIDDEN.search(code):
+          for i, line in enumerate(strip_comments(open(p).read()).splitlines(), 1):
+            if FORBIDDEN.search(line):
               hits.append(f"{os.path.relpath(p, COQ)}:{i}: {line.strip()[:120]}")
+            m = re.match(r"\s*(Variable|Variables|Hypothesis|Hypotheses|Context)\b", line)
+            if m and not _in_section(p, i):
+              hits.append(f"{os.path.relpath(p, COQ)}:{i}: {m.group(1)} outside a Section")
   return hits
+
+
+def _in_section(path, lineno):
+  depth = 0
+  for i, line in enumerate(strip_comments(open(path).read()).splitlines(), 1):
+    if i >= lineno:
+      break
+    if re.match(r"\s*Section\s+\w+", line):
+      depth += 1
+    elif re.match(r"\s*End\s+\w+\s*\.", line) and depth:
+      depth -= 1
+  return depth > 0
 
 
 # ------------------------------------------------------------------------------------------ case files
